@@ -5,7 +5,8 @@ M3: Verifier.tla with the verifier key as prover-chosen data unless KeyPinned: w
     selects (Verifier_unpinned.cfg must report it).
 M1: wrappers (VerifierCircuit and CircuitFixed) instantiated from a build-time template and a proving-time assignment with a
     different key: each of the 17 key elements x {+1, random, zero}, the other circuit's complete key, random keys, the right key with its
-    commitment entries permuted (a selected entry swapped with another, the cap rotated); the query
+    commitment entries permuted (a selected entry swapped with another, the cap rotated); the key is
+    delivered as a JSON document through the repository's own request readers in a process that has already read the build-time key; the query
     indices of the proof at hand are computed by the real circuit, so "selected by no query" is known per case.
 """
 import random
@@ -30,7 +31,7 @@ def run(ctx):
         other = [x for x in ("testdata", "random") if CIRCUIT[x] != CIRCUIT[inst]][0]
         wrappers = ["vc"] + (["fixed"] if CIRCUIT[inst] == "A" else [])
         for w in wrappers:
-            for k in ([1, 28] if thorough else [1]):
+            for k in ([1, 28] if thorough else [4]):  # quick: four query rounds, so that several cap entries are selected
                 cases = [{"kind": "entry", "path": p, "op": op, "wrapper": w} for p in paths for op in ("+1", "random", "zero")]
                 cases += [{"kind": "other", "other": other, "wrapper": w}] + [{"kind": "random", "wrapper": w} for _ in range(3)]
                 cases += [{"kind": "permute", "wrapper": w}]
